@@ -3,13 +3,14 @@
 (* returned for it, projected to data). TLC runs the product machine of YieldMachine.tla on them:  *)
 (* one initial state per record, all condition-outcome sequences explored.                         *)
 EXTENDS Yield, Json, IOUtils
-VARIABLES c, sk, loc, spent
+VARIABLES c, ph, sk, loc, idle, spent
 Obs == JsonDeserialize(IOEnv.VERIF_OBS)
 M == INSTANCE YieldMachine WITH Cases <- Obs, Budget <- 0
 Spec == M!Spec
 \* the real function returned (records with outcome # "ok" carry subs = <<>>)
-Linearized == Obs[c].outcome = "ok"
-SameEvents == Linearized => M!SameEvents
+Linearized == ph = "first" => Obs[c].outcome = "ok"
+SameEvents == Obs[c].outcome = "ok" => M!SameEvents
+NoSilentCycle == M!NoSilentCycle
 LabelsAreConsecutive == M!LabelsAreConsecutive
 AllTargetsExist == M!AllTargetsExist
 StackBounded == M!StackBounded
